@@ -49,6 +49,24 @@ class Injected(RuntimeError):
     pass
 
 
+# A user action may fail with ANY exception class - also with one of the library's own (it drove a
+# second interpreter, or re-raised what a helper gave it).  It is still a failing user action.
+class InjectedMissing(Injected, xs.ImplementationMissingError):
+    pass
+
+
+class InjectedNotSupported(Injected, xs.NotSupportedError):
+    pass
+
+
+class InjectedConfig(Injected, xs.InvalidConfigError):
+    pass
+
+
+def _exc_for(name):
+    return (Injected, InjectedMissing, Injected, InjectedNotSupported, InjectedConfig)[len(name) % 5]
+
+
 class Faults:
     def __init__(self):
         self.counts = {}
@@ -182,13 +200,13 @@ def run_once(engine, case, events, gtables, F, target, drop=None, machine_patch=
         def _a(interp, ctx, event, action_def, _n=name):
             rec.log.append(("act", _n, event, config_of(interp), 0))
             if F.hit("action"):
-                raise Injected("action " + _n)
+                raise _exc_for(_n)("action " + _n)
         return _a
     def mk_async_action(name):
         async def _a(interp, ctx, event, action_def, _n=name):
             rec.log.append(("act", _n, event, config_of(interp), 0))
             if F.hit("action"):
-                raise Injected("action " + _n)
+                raise _exc_for(_n)("action " + _n)
         return _a
     actions = {n: mk_action(n) for n in names if not (drop and n in drop)}
     if engine == "async":
